@@ -624,59 +624,59 @@ package openflow13
 // constructors that need preconditions on their arguments (all other New* functions carry the automatic
 // contract "ensures r != nil && wf(r)"); callers inline constructors, the contract is the constructor's own proof
 
-//@ func NewEthDstField(ethDst, ethDstMask) (r) [C01 C02]
+//@ func NewEthDstField(ethDst, ethDstMask) (r) [C01 C02 C03 C06]
 //@   inline
 //@   requires len(ethDst) == 6 && (ethDstMask != nil ==> len(*ethDstMask) == 6)
 //@   ensures r != nil && wf(r)
-//@ func NewEthSrcField(ethSrc, ethSrcMask) (r) [C01 C02]
+//@ func NewEthSrcField(ethSrc, ethSrcMask) (r) [C01 C02 C03 C06]
 //@   inline
 //@   requires len(ethSrc) == 6 && (ethSrcMask != nil ==> len(*ethSrcMask) == 6)
 //@   ensures r != nil && wf(r)
-//@ func NewIpv6SrcField(ipSrc, ipSrcMask) (r) [C01 C02]
+//@ func NewIpv6SrcField(ipSrc, ipSrcMask) (r) [C01 C02 C03 C06]
 //@   inline
 //@   requires len(ipSrc) == 16 && (ipSrcMask != nil ==> len(*ipSrcMask) == 16)
 //@   ensures r != nil && wf(r)
-//@ func NewIpv6DstField(ipDst, ipDstMask) (r) [C01 C02]
+//@ func NewIpv6DstField(ipDst, ipDstMask) (r) [C01 C02 C03 C06]
 //@   inline
 //@   requires len(ipDst) == 16 && (ipDstMask != nil ==> len(*ipDstMask) == 16)
 //@   ensures r != nil && wf(r)
-//@ func NewArpThaField(arpTha) (r) [C01 C02]
+//@ func NewArpThaField(arpTha) (r) [C01 C02 C03 C06]
 //@   inline
 //@   requires len(arpTha) == 6
 //@   ensures r != nil && wf(r)
-//@ func NewArpShaField(arpSha) (r) [C01 C02]
+//@ func NewArpShaField(arpSha) (r) [C01 C02 C03 C06]
 //@   inline
 //@   requires len(arpSha) == 6
 //@   ensures r != nil && wf(r)
-//@ func NewNxARPShaMatchField(addr, mask) (r) [C01 C02]
+//@ func NewNxARPShaMatchField(addr, mask) (r) [C01 C02 C03 C06]
 //@   inline
 //@   requires len(addr) == 6 && (mask != nil ==> len(mask) == 6)
 //@   ensures r != nil && wf(r)
-//@ func NewNxARPThaMatchField(addr, mask) (r) [C01 C02]
+//@ func NewNxARPThaMatchField(addr, mask) (r) [C01 C02 C03 C06]
 //@   inline
 //@   requires len(addr) == 6 && (mask != nil ==> len(mask) == 6)
 //@   ensures r != nil && wf(r)
-//@ func NewActionSetField(field) (r) [C01 C02]
+//@ func NewActionSetField(field) (r) [C01 C02 C03 C06]
 //@   inline
 //@   requires wf(field)
 //@   ensures r != nil && wf(r)
-//@ func NewNXActionRegLoad(ofsNbits, dstField, value) (r) [C01 C02]
+//@ func NewNXActionRegLoad(ofsNbits, dstField, value) (r) [C01 C02 C03 C06]
 //@   inline
 //@   requires dstField != nil && dstField.Field < 128
 //@   ensures r != nil && wf(r)
-//@ func NewNXActionRegLoad2(dstField) (r) [C01 C02]
+//@ func NewNXActionRegLoad2(dstField) (r) [C01 C02 C03 C06]
 //@   inline
 //@   requires wf(dstField)
 //@   ensures r != nil && wf(r)
-//@ func NewNXActionRegMove(nBits, srcOfs, dstOfs, srcField, dstField) (r) [C01 C02]
+//@ func NewNXActionRegMove(nBits, srcOfs, dstOfs, srcField, dstField) (r) [C01 C02 C03 C06]
 //@   inline
 //@   requires srcField != nil && srcField.Field < 128 && dstField != nil && dstField.Field < 128
 //@   ensures r != nil && wf(r)
-//@ func NewOutputFromField(srcField, ofsNbits) (r) [C01 C02]
+//@ func NewOutputFromField(srcField, ofsNbits) (r) [C01 C02 C03 C06]
 //@   inline
 //@   requires srcField != nil && srcField.Field < 128
 //@   ensures r != nil && wf(r)
-//@ func NewOutputFromFieldWithMaxLen(srcField, ofsNbits, maxLen) (r) [C01 C02]
+//@ func NewOutputFromFieldWithMaxLen(srcField, ofsNbits, maxLen) (r) [C01 C02 C03 C06]
 //@   inline
 //@   requires srcField != nil && srcField.Field < 128
 //@   ensures r != nil && wf(r)
